@@ -149,6 +149,7 @@ class Ref:
         self.max_depth = 0
         self.vl = 0            # successes of elements that contribute no value
         self.triggers = set()  # conditions under which a recorded known finding can manifest
+        self.last_from_seed = False
         self.lr_heads = set()  # rules that acted as the head of a seed growth in this execution
         self.lr_involved = {}  # head rule -> rules re-entered while it was growing at the same position
 
@@ -210,11 +211,13 @@ class Ref:
         if not upper:
             pos = self.skip(pos)
         key = (name, pos)
+        self.last_from_seed = False
         if key in self.growing:
             seed = self.growing[key]
             seed['used'] = True
             if seed['res'] is None:
                 raise PFail(pos, 'lr')
+            self.last_from_seed = True
             return seed['res']
         seed = {'res': None, 'used': False}
         self.growing[key] = seed
@@ -238,6 +241,7 @@ class Ref:
             return seed['res']
         finally:
             self.depth -= 1
+            self.last_from_seed = False
             del self.growing[key]
 
     def rule_body(self, r, pos):
@@ -314,7 +318,8 @@ class Ref:
                 self.nonw.add('none-valued-call')
             if isopen(val):
                 # an override (@: over several elements, @+:) made the callee's value an open list
-                self.triggers.add('open-list-rule-value')
+                # (a growing seed handed back to its own recursion is a different matter: TatSu closes those)
+                self.triggers.add('open-list-seed' if self.last_from_seed else 'open-list-rule-value')
             st.elems.append(val)
             return end
         if isinstance(e, Include):
